@@ -21,6 +21,52 @@ CHECKS = {
     ),
 }
 
+ROUTING_TECH = ("TLA+ spec of the routing pipeline (Routing.tla: receiver, hand-off, sender id rewrite, ring, ack un-mapping, "
+                "aggregation, stream faults) model-checked by TLC; TLC-generated boundary schedules replayed on the real "
+                "streamRouting through gated fake streams; recorded traces judged by TLC (RoutingObs.tla observation monitor) "
+                "and checked for conformance with the design (RoutingTrace.tla, internal steps inferred)")
+ROUTING_NOTE = ("Trusted: TLC; the fake gRPC streams (half-close/EOF semantics modelled after grpc-go); the fake target, which "
+                "applies Temporal v1.31.2 ExecutableTaskTracker rules; bounded instances only (1-2 sources, 2-3 targets, 2-3 ids). "
+                "Internal proxy steps run eagerly in replay (no hooks), so schedules that need a delayed internal hand-off are "
+                "covered by the design check and by whatever the Go scheduler produces, not enumerated.")
+CHECKS.update({
+    "C01": dict(engine="Routing", category="model_checking", design_ref="3.2", technique=ROUTING_TECH, note=ROUTING_NOTE,
+        text="NoEarlyAck is checked by TLC on every interleaving of the bounded routing model (all routes, batch shapes, "
+             "target speeds); every eager-normal-form boundary schedule of the small model (sampled in quick, all in thorough) "
+             "is executed on the real code and the monitor requires, at every acknowledgement the real proxy sends to a "
+             "source, that each received task below it was acknowledged by the target stream it was forwarded on."),
+    "C02": dict(engine="Routing", category="model_checking", design_ref="3.2", technique=ROUTING_TECH, note=ROUTING_NOTE,
+        text="TLC checks exactly-once delivery to the owner, source order and well-formedness (tracker never drops or panics) "
+             "on the bounded model incl. late-connecting targets and two sources feeding one target; the same clauses plus "
+             "payload identity and the real hash partitioning are evaluated by the monitor on real executions."),
+    "C03": dict(engine="Routing", category="model_checking", design_ref="3.2", technique=ROUTING_TECH, note=ROUTING_NOTE,
+        text="Ack monotonicity and the high-watermark bound are TLC invariants; eventual completeness is checked as bounded "
+             "liveness rewritten as safety (RoutingTick.tla: within N virtual seconds of cooperative behaviour the final "
+             "watermark is acknowledged, incl. slow targets and targets that never get a task) and on the real code by "
+             "playing N+2 cooperative ticks after each replayed schedule."),
+    "C04": dict(engine="Routing", category="model_checking", design_ref="3.2", technique=ROUTING_TECH, note=ROUTING_NOTE,
+        text="Stream breaks (target and source) are boundary actions enabled after every step of the model, with the "
+             "shutdown of an incarnation as a separate internal step; TLC shows that early acknowledgements arise only from "
+             "the two recorded known findings; fault schedules are replayed on the real code (fake streams fail Recv/Send) "
+             "and the monitor's violations are classified by cause: only the listed causes are tolerated."),
+})
+
+CHECKS["C08"] = dict(engine="ShardLife", category="model_checking", design_ref="3.3",
+    technique="TLA+ spec of overlapping stream incarnations (ShardLife.tla: one action per critical section of "
+              "proxyStreamSender.Run / proxyStreamReceiver.Run / shardManagerImpl registries, notifier and deliverer "
+              "processes) model-checked by TLC; TLC-simulated step schedules replayed on the real objects with "
+              "build-tag-guarded hook gates inside the in-method windows and fake-stream gates; recorded registries "
+              "judged by TLC (ShardLifeObs.tla)",
+    text="TLC explores every interleaving of 2 (thorough: 3) incarnations of one sender and one receiver shard with a remote "
+         "announcement and a deliverer, at the granularity of the code's critical sections; the recorded known findings "
+         "(unconditional receiver cleanup, concurrent registration) are factored out by constants and the 'ideal' "
+         "instance shows they are the only causes. Thousands of simulated schedules are replayed step by step on the real "
+         "code (each step = one gate release) and NoCrash / OwnCleanupOnly / NewestRegistered / AllGone are evaluated by "
+         "TLC on the registries the real shard manager reported.",
+    note="Trusted: TLC; the hook points (add-only one-liners in /repo under build tag verif) sit exactly at the windows; "
+         "panics are observed through recover() in the harness goroutine that plays the memberlist / handler goroutine; "
+         "cancel-function identity is probed destructively at the end of a run.")
+
 NOT_YET = "check not built yet (work in progress; see DESIGN.md section 6 for the order of work)"
 NA = {}
 
